@@ -74,6 +74,8 @@ func (ex *Exec) finishBuiltin(st *State, pc *preparedCall, k func(*State, []Val)
 			st.assume(and(eq(app("s-len", r.T), app("+", la, lb)), implies(app("s-nil", r.T), and(app("s-nil", cur.T), eq(lb, "0")))))
 			st.assume(fmt.Sprintf("(forall ((q_i Int)) (=> (and (<= 0 q_i) (< q_i %s)) (= (select (s-arr %s) q_i) (select (s-arr %s) q_i))))", la, r.T, cur.T))
 			st.assume(fmt.Sprintf("(forall ((q_i Int)) (=> (and (<= 0 q_i) (< q_i %s)) (= (select (s-arr %s) (+ %s q_i)) (select (s-arr %s) q_i))))", lb, r.T, la, b.T))
+			// the same fact indexed by the position in the RESULT (goals about result[sk] need this instance)
+			st.assume(fmt.Sprintf("(forall ((q_i Int)) (=> (and (<= %s q_i) (< q_i (+ %s %s))) (= (select (s-arr %s) q_i) (select (s-arr %s) (- q_i %s)))))", la, la, lb, r.T, b.T, la))
 			one(r)
 			return
 		}
